@@ -37,6 +37,25 @@ theorem lexRun_quoted_stay (c : TagCtx) (q : UInt8) (s : Str) (h : ∀ b ∈ s, 
     have hxs : ∀ b ∈ xs, b ≠ q := fun b hb => h b (by simp [hb])
     simp [lexRun, lexStep, hx, ih hxs]
 
+theorem lower_ne_lt : ∀ n, n < 256 → UInt8.ofNat n ≠ 60 → lower (UInt8.ofNat n) ≠ 60 := by
+  decide +kernel
+
+theorem lexRun_rawText_stay (e : Str) (s : Str) (he : e.head? = some 60) (h : ∀ b ∈ s, b ≠ 60) :
+    lexRun (.rawText e 0) s = (.rawText e 0, []) := by
+  obtain ⟨t, rfl⟩ : ∃ t, e = 60 :: t := by
+    cases e with
+    | nil => simp at he
+    | cons x xs => simp at he; exact ⟨xs, by rw [he]⟩
+  induction s with
+  | nil => rfl
+  | cons x xs ih =>
+    have hx : x ≠ 60 := h x (by simp)
+    have hxs : ∀ b ∈ xs, b ≠ 60 := fun b hb => h b (by simp [hb])
+    have hl : lower x ≠ 60 := by
+      have := lower_ne_lt x.toNat (UInt8.toNat_lt x) (by simpa using hx)
+      simpa using this
+    simp [lexRun, lexStep, hl, hx, ih hxs]
+
 /-! ### nesting check -/
 
 theorem chk_append (σ : List Str) (a b : List Tok) :
@@ -225,6 +244,12 @@ theorem runPieces_sound (st st' : LState) (ps : List Piece) (ts : List Tok)
           have hq : q = 34 := by simpa [dataOk] using hok
           subst hq
           rw [lexRun_quoted_stay _ _ _ (fun b hb => (hot_ne (encode_safe e v b hb)).2.2)]
+          simp [ih']
+        | rawText et m =>
+          have hm : m = 0 ∧ et.head? = some 60 := by simpa [dataOk] using hok
+          obtain ⟨hm0, hhead⟩ := hm
+          subst hm0
+          rw [lexRun_rawText_stay _ _ hhead (fun b hb => (hot_ne (encode_safe e v b hb)).1)]
           simp [ih']
         | _ => simp [dataOk] at hok
       · simp at h
